@@ -513,7 +513,9 @@ def r4_lhs(ctx, repo):
     dl_ = func_params(bl)[0]
     nl_ = func_params(bl)[1] if len(func_params(bl)) > 1 else "num_samples"
     rtl = [canonical(t) for _, t in Terms(bl).returns if t is not None]
-    okw = bool(rtl) and all(r == "construct_df_from_random_matrix(lhs(n=len({d}), samples={n}), np.array([{d}[_0] for _0 in {d}]))".format(d=dl_, n=nl_) for r in rtl)
+    okw = bool(rtl) and all(r in ("construct_df_from_random_matrix(lhs(n=len({d}), samples={n}), np.array([{d}[_0] for _0 in {d}]))".format(d=dl_, n=nl_),
+                                  "construct_df_from_random_matrix(lhs(len({d}), {n}), np.array([{d}[_0] for _0 in {d}]))".format(d=dl_, n=nl_),
+                                  "construct_df_from_random_matrix(lhs(len({d}), samples={n}), np.array([{d}[_0] for _0 in {d}]))".format(d=dl_, n=nl_)) for r in rtl)
     dstate = True if (okd and okw) else (False if (c and (not okw or not okd)) else None)
     ctx.check3(dstate, "R4", "doe.lhs/build_lhs", where(doe, lf), "build_lhs calls lhs(n=#parameters, samples=N) without criterion, which takes the classic construction",
                "the default Latin-hypercube path does not run the classic one-sample-per-stratum construction with (n=#parameters, samples=N)", "wiring not recognised", key="default-criterion")
@@ -592,7 +594,9 @@ def r5_arity(ctx, repo):
                     a_ = T_.expand(c[0].args[0], at=s_)
                     ok = isinstance(a_, ast.DictComp) and len(a_.generators) == 1 and not a_.generators[0].ifs \
                         and access_path(a_.generators[0].iter) == selfn + ".parameters"
-        okn = bool(c) and any(k.arg == "num_samples" and text(k.value) == selfn + ".number" for k in c[0].keywords)
+        from ..astutil import call_arg
+        nsv = call_arg(c[0], 1, "num_samples") if c else None
+        okn = nsv is not None and text(nsv) == selfn + ".number"
         astate = True if (ok and okn) else (False if (c and not okn) else None)
         ctx.check3(astate, "R5", "%s.generate" % gname, where(g.module, fn), "one [lo, hi] entry per declared parameter; num_samples = requested number",
                    "the generator does not pass its requested number of samples to the builder (%s)" % (text(c[0]) if c else ""), "generator shape not recognised", key="arity")
